@@ -50,6 +50,8 @@ def run(ctx, res):
             res.holds("C17.R1b", fshort(b0), "ready-independent-of-flag")
     merge_shape(ctx, res, "C17.R2")
     entry_wiring(ctx, res, "C17.R3")
+    squash_rule(ctx, res, "C17.R4")
+    common.registry_wiring(ctx, res, "C17.R5")
 
 
 def merge_shape(ctx, res, rule):
@@ -174,6 +176,77 @@ def merge_shape(ctx, res, rule):
         res.holds(rule, fn, "pending-tail-appended")
     else:
         res.add(Finding(rule, fn, "pending-tail-appended", "the pending ranges behind the last ready range are not appended (as Pending) after the merge loop", loc=loc))
+
+
+def squash_rule(ctx, res, rule):
+    """IV: a pending range is omitted only if it lies wholly inside the ready range, and one that lies strictly inside
+    is omitted - complete table over the weak orderings of the four endpoints (one iteration of the merge loop)."""
+    import itertools
+    P = ctx.lib
+    b = P.fn("Remover::build_remove_marker_all")
+    fn = fshort(b)
+    loc = T.loc(b["tree"])
+    fors = [n for n in T.nodes(b["tree"], "for")]
+    whiles = [n for n in T.nodes(b["tree"], "loop") if "while_cond" in n]
+    if len(fors) != 1 or len(whiles) != 1:
+        res.cannot(rule, fn, "loops", "expected `for` over ready ranges with one inner `while`", loc)
+        return
+    loop, inner = fors[0], whiles[0]
+    lets = {s["pat"]["name"]: s["pat"]["id"] for s in T.nodes(b["tree"], "let") if s["pat"]["p"] == "bind"}
+    pend_name = None
+    for n in T.nodes(inner["body"], "index"):
+        pend_name = T.render(T.peel_ref(n["base"]))
+    cur_name = None
+    for n in T.nodes(inner["body"], "assign_op"):
+        cur_name = T.render(n["l"])
+    merged_name = None
+    for n in T.nodes(loop["body"], "mcall"):
+        if n["name"] == "push":
+            merged_name = T.render(T.peel_ref(n["recv"]))
+    if not (pend_name in lets and cur_name in lets and merged_name in lets):
+        res.cannot(rule, fn, "locals", "cannot identify pending list / cursor / merged list", loc)
+        return
+    rows = bad = 0
+    first_bad = None
+    for rs, re_, ps, pe in itertools.product(range(5), repeat=4):
+        if not (rs < re_ and ps < pe):
+            continue
+        rows += 1
+        merged = A.VecV([])
+        pend = A.VecV([A.Tuple([A.Struct("Range", [("start", A.Lit(ps)), ("end", A.Lit(pe))]), A.Sym("pidx")])])
+        I = A.Interp(P, models={"std::vec::Vec::len": lambda I_, a, n, env: A.Lit(len(a[0].items)) if isinstance(a[0], A.VecV) and a[0].base is None else A.Sym("len")})
+        I.lazy_locals = True
+
+        def run(J):
+            env = {lets[pend_name]: pend, lets[cur_name]: A.Lit(0), lets[merged_name]: merged}
+            if not J.match_pat(loop["pat"], A.Tuple([A.Struct("Range", [("start", A.Lit(rs)), ("end", A.Lit(re_))]), A.Sym("ridx")]), env):
+                raise A.Cannot("loop pattern")
+            return J.ev(inner["body"], env)
+        try:
+            outs = I.explore(run)
+        except A.Cannot as e:
+            res.cannot(rule, fn, "loop-body", str(e), loc)
+            return
+        if len(outs) != 1:
+            res.cannot(rule, fn, "loop-body", "the merge step is not a function of the endpoint ordering", loc)
+            return
+        o = outs[0]
+        consumed = o["exit"] in ("fall", "continue")
+        listed = len(merged.items) == 1
+        if not consumed:
+            continue                      # pending lies behind the ready range: handled in a later iteration
+        inside = rs <= ps and pe <= re_
+        strictly_inside = rs <= ps and pe < re_
+        if (not listed and not inside) or (listed and strictly_inside):
+            bad += 1
+            first_bad = first_bad or ((rs, re_), (ps, pe), listed)
+    res.extra.setdefault("ordering_rows", {})[fn] = rows
+    if bad:
+        r_, p_, l_ = first_bad
+        res.add(Finding(rule, fn, "squash-soundness", "for ready %s and pending %s (endpoint ordering) the pending range is %s: a Pending region is omitted exactly when it lies "
+                        "wholly inside the Ready region; %d of %d orderings" % (r_, p_, "listed" if l_ else "omitted", bad, rows), loc=loc))
+    else:
+        res.holds(rule, fn, "squash-soundness", "%d endpoint orderings" % rows)
 
 
 def entry_wiring(ctx, res, rule):
